@@ -92,6 +92,10 @@ def generate(unit_dir, mustfail=False, mutate=None, variant=None, template='unit
     with open(tpath, encoding='utf-8') as f:
         lines = f.read().split('\n')
     lines = expand_includes(lines)
+    FORBID[0] = None
+    for l in lines[:3]:
+        if l.startswith('//@@ unit '):
+            FORBID[0] = parse_opts(l.split()[3:]).get('forbid')
     g = Generated()
     out = []
     i = 0
@@ -145,6 +149,20 @@ def generate(unit_dir, mustfail=False, mutate=None, variant=None, template='unit
                 txt = 'pub mod %s {\n%s\n%s\n}' % (o['mod'], pre, txt)
             out.extend(txt.split('\n'))
             g.items.append(dict(file=rel, kind='file', name=rel, sha=hashlib.sha256(txt.encode()).hexdigest()[:16], gen_lines=(0, 0)))
+            i += 1
+        elif cmd == 'forbidstub':
+            # a writer this unit's functions must never reach: its real signature, stubbed with `requires false`
+            rel, qual = words[1], words[2]
+            st = dict(kind='method', file=rel, qual=qual)
+            save = FORBID[0]
+            FORBID[0] = '.*'
+            try:
+                stxt = stub_text(st, plain)
+            finally:
+                FORBID[0] = save
+            indent = line[:len(line) - len(line.lstrip())]
+            out.extend((indent + l if l.strip() else l) for l in stxt.split('\n'))
+            g.auto_stubbed.append(qual)
             i += 1
         elif cmd == 'enum_samples':
             # replay programs only: one value per variant of an enum, fields filled by the template's `Sample` trait
@@ -393,6 +411,9 @@ def generate(unit_dir, mustfail=False, mutate=None, variant=None, template='unit
     return g
 
 
+FORBID = [None]      # regex set from the unit header (`forbid=<regex>`): callees a unit's functions must never reach
+
+
 def stub_text(st, plain):
     rf = load(st['file'])
     a, kw, bo, bc = rf.find_fn(st['qual'])
@@ -401,6 +422,10 @@ def stub_text(st, plain):
         return transform.strip_attrs_and_vis(raw, plain=True)
     head = transform.strip_attrs_and_vis(rf.text[a:bo])
     head = re.sub(r'\basync\s+', '', head)
+    if FORBID[0] and re.search(FORBID[0], st['qual'].split('::')[-1]):
+        st['forbidden'] = True
+        return ('#[verifier::external_body] // AUTO-STUB of a callee this unit forbids: reaching it is the violation\n' + head.rstrip()
+                + '\n    requires false,      // [readonly.no_write_to_the_truth_log_is_reachable]\n{ unimplemented!() }')
     return '#[verifier::external_body] // AUTO-STUB: callee without a contract (new or not listed in the unit)\n' + head.rstrip() + ' { unimplemented!() }'
 
 
